@@ -31,6 +31,9 @@ pub fn scenarios(tier: &str, seed: u64) -> Vec<Scn> {
         ("AV||SNAP||GETSNAP", vec![vec![Add(Latest)], vec![Snap(Latest)], vec![GetSnap]]),
         ("SNAP||SNAP||GETSNAP", vec![vec![Snap(Latest)], vec![Snap(P(1))], vec![GetSnap]]),
         ("AV||GCV;GCV", vec![vec![Add(Latest)], vec![Gcv(Latest), Gcv(Latest)]]),
+        ("GETSNAP||SNAP||GETSNAP", vec![vec![GetSnap], vec![Snap(Latest)], vec![GetSnap]]),
+        ("GCV||AV||GCV", vec![vec![Gcv(Latest)], vec![Add(Latest)], vec![Gcv(Latest)]]),
+        ("AV;AV(n2)||AV(n0)", vec![vec![Add(Latest), Add(New(2))], vec![Add(New(0))]]),
     ];
     let mut out = vec![];
     let prefixes = [Prefix::NeverSeen, Prefix::Empty, Prefix::Chain3, Prefix::Chain3Snap, Prefix::Chain6Snap];
@@ -85,7 +88,7 @@ pub fn shard_run(prop: &str, tier: &str, seed: u64, replay: Option<&serde_json::
     let mut cov = Cov::default();
     let scns = scenarios(tier, seed);
     let cap = if thorough { 3000 } else { 60 };
-    let n_probe = if thorough { 60 } else { 6 };
+    let n_probe = if thorough { 150 } else { 15 };
     let (replay_scn, replay_choices): (Option<String>, Option<Vec<usize>>) = match replay {
         Some(r) => (
             r["replay"]["scenario"]["name"].as_str().map(|s| s.to_string()),
@@ -142,7 +145,15 @@ pub fn shard_run(prop: &str, tier: &str, seed: u64, replay: Option<&serde_json::
             let mut attempt = 0;
             let (obs, taken, divergent) = loop {
                 attempt += 1;
-                let r = if random_phase {
+                let r = if random_phase && (execs - dfs_done_at.unwrap()) % 3 != 0 {
+                    // two of three sampled schedules are one-preemption schedules
+                    let mut r2 = rnd.fork(execs as u64);
+                    let nw = scn.programs.len();
+                    let mut prio: Vec<usize> = (0..nw).collect();
+                    r2.shuffle(&mut prio);
+                    let mut ch = PreemptChooser { prio, at: r2.usize(9), victim_steps: 0, taken: vec![] };
+                    (execute(scn, &mut ch, true), ch.taken, false)
+                } else if random_phase {
                     let mut ch = RandChooser { rng: rnd.fork(execs as u64), taken: vec![] };
                     (execute(scn, &mut ch, true), ch.taken, false)
                 } else {
@@ -151,7 +162,7 @@ pub fn shard_run(prop: &str, tier: &str, seed: u64, replay: Option<&serde_json::
                     (o, ch.taken, ch.divergent)
                 };
                 // a watchdog expiry (overloaded machine) is retried before it counts as inconclusive
-                if r.0.is_ok() || attempt >= 3 {
+                if r.0.is_ok() || attempt >= 2 {
                     break r;
                 }
                 cov.count("executions_retried_after_watchdog", 1);
@@ -191,7 +202,7 @@ pub fn shard_run(prop: &str, tier: &str, seed: u64, replay: Option<&serde_json::
                     }
                     let choices: Vec<usize> = taken.iter().map(|t| t.0).collect();
                     let rep = json!({"origin": "e2", "case": *si, "scenario": scn.json(), "choices": choices,
-                        "observed": {"responses": o.abs, "invoke_steps": o.inv, "return_steps": o.ret, "final_state": o.state},
+                        "observed": {"arguments": o.args, "responses": o.abs, "invoke_steps": o.inv, "return_steps": o.ret, "final_state": o.state},
                         "trace": o.trace.iter().map(|(s, w, p)| format!("{s}:w{w}:{p:?}")).collect::<Vec<_>>()});
                     let errs: Vec<usize> = (0..n).filter(|k| matches!(o.resp[*k], crate::ops::Resp::Error(_))).collect();
                     match lin {
